@@ -438,6 +438,62 @@ for case, r in zip(ACASES, run_parallel(ACASES, abort_after_half_close, workers=
     if r['finished_after_s'] is None:
         chk.violation('close.abort-after-half-close', f'connection-lingers:{who}|{mname}', f'{who} sent its bytes, ended its direction, then reset the connection while the other side stayed silent ({mname}): 3 s later the proxy still lists the connection as live', {'useSplice': mode, 'who': who})
 
+# ---- a half-closed tunnel outlives the idle period as long as its open direction keeps flowing: with timeouts.idle = 2
+#      one endpoint sends a request and ends its direction, the other streams 12 pieces over 6 s
+def half_closed_streaming(case):
+    mode, who = case
+    ls = socket.socket(); ls.setsockopt(socket.SOL_SOCKET, socket.SO_REUSEADDR, 1); ls.bind(('127.0.0.1', 0)); ls.listen(4)
+    hp_, ap_ = free_port(), free_port()
+    pxs = Proxy({'listeners': [{'name': 'http', 'bind': f'127.0.0.1:{hp_}'}], 'connectors': [{'name': 'direct'}], 'rules': [{'target': 'direct'}],
+                 'metrics': {'bind': f'127.0.0.1:{ap_}', 'ui': None}, 'timeouts': {'idle': 2}, 'ioParams': {'bufferSize': 65536, 'useSplice': mode}}, 'c04s')
+    pxs.api_port = ap_
+    if not pxs.start([hp_, ap_]):
+        return {'error': pxs.log()[-300:]}
+    try:
+        c = socket.create_connection(('127.0.0.1', hp_), timeout=5)
+        c.sendall(f'CONNECT 127.0.0.1:{ls.getsockname()[1]} HTTP/1.1\r\n\r\n'.encode())
+        ls.settimeout(5)
+        srv, _ = ls.accept()
+        head, rest = recv_head(c, 5)
+        if not head.startswith(b'HTTP/1.1 200'):
+            return {'error': f'no tunnel: {head[:40]!r}'}
+        closer, streamer = (c, srv) if who == 'client-ends-first' else (srv, c)
+        closer.sendall(b'request')
+        if recv_exact(streamer, 7, 3) != b'request':
+            return {'error': 'payload not relayed'}
+        closer.shutdown(socket.SHUT_WR)
+        if expect_end(streamer) != 'eof':
+            return {'error': 'end-of-stream not relayed'}
+        sent = 0
+        def stream():
+            nonlocal sent
+            try:
+                for i in range(12):
+                    streamer.sendall(pattern(1000, i))
+                    sent += 1000
+                    time.sleep(0.5)
+                streamer.shutdown(socket.SHUT_WR)
+            except OSError:
+                pass
+        t = threading.Thread(target=stream, daemon=True); t.start()
+        got, how = recv_until_eof(closer, 10)
+        t.join(8)
+        closer.close(); streamer.close()
+        return {'received': len(got), 'sent': sent, 'end': how}
+    finally:
+        pxs.stop(); ls.close()
+
+SCASES = [(m, w) for m in (True, False) for w in ('client-ends-first', 'origin-ends-first')]
+for case, r in zip(SCASES, run_parallel(SCASES, half_closed_streaming, workers=4)):
+    mode, who = case
+    evals += 1
+    mname = 'splice' if mode else 'buffered'
+    if isinstance(r, tuple) or 'error' in r:
+        machinery(f'half-closed streaming {case}: {r}')
+    distinct.add(('half-closed-streaming', mname, who, r['received'] == 12000))
+    if r['received'] != 12000 or r['end'] != 'eof':
+        chk.violation('close.half-closed-streaming', f'open-direction-cut:{who}|{mname}', f'{who} ({mname}), timeouts.idle = 2: the open direction streamed 12 x 1000 bytes over 6 s; its receiver got {r["received"]} bytes, then {r["end"]} (the sender had written {r["sent"]})', {'useSplice': mode, 'who': who, 'observed': r})
+
 # ---- more in flight than the kernel absorbs: the sender pushes 8 MiB and ends its direction while the receiver (64 KiB
 #      receive buffer) is not reading for 1.5 s, so the relay meets a full send buffer (short writes, would-block) with
 #      the end-of-stream already queued behind the data. Both directions x both I/O modes x plain / TLS listener.
